@@ -45,7 +45,7 @@ type NodePart struct {
 	Faults   map[string]nodetypes.Fault // by fault id
 	FaultIdx map[string]string          // raw index key -> fault id
 	Fishing  map[string]string
-	Round    int // -1 = unset
+	Round    int               // -1 = unset
 	RawOther map[string]string // any key outside known prefixes
 }
 
